@@ -2249,6 +2249,25 @@ func (t *tr) callStmt(sb *strings.Builder, c *ast.CallExpr, lhs []ast.Expr, defi
 			}
 		}
 	}
+	// binary.Write(&bf, binary.BigEndian, x) into a local bytes.Buffer, x of an unsigned 16- or 32-bit type
+	if exprString(c.Fun) == "binary.Write" && lhs == nil && len(c.Args) == 3 && exprString(c.Args[1]) == "binary.BigEndian" {
+		if u, ok := c.Args[0].(*ast.UnaryExpr); ok && u.Op == token.AND {
+			if id, ok := u.X.(*ast.Ident); ok {
+				if tv0, ok := t.p.info.Types[id]; ok && isBytesBuffer(tv0.Type) {
+					bits, signed, isInt := intInfo(t.p.info.Types[c.Args[2]].Type)
+					if isInt && !signed && (bits == 16 || bits == 32) {
+						v := t.atom(c.Args[2])
+						if bits == 16 {
+							fmt.Fprintf(sb, "%s%s := %s ++ [%s / 256 %% 256, %s %% 256]\n", ind, name(id.Name), name(id.Name), v, v)
+						} else {
+							fmt.Fprintf(sb, "%s%s := %s ++ [%s / 16777216 %% 256, %s / 65536 %% 256, %s / 256 %% 256, %s %% 256]\n", ind, name(id.Name), name(id.Name), v, v, v, v)
+						}
+						return true
+					}
+				}
+			}
+		}
+	}
 	// encoding/binary big-endian stores into a local slice
 	if fn := exprString(c.Fun); (fn == "binary.BigEndian.PutUint16" || fn == "binary.BigEndian.PutUint32") && lhs == nil && len(c.Args) == 2 {
 		if id, ok := c.Args[0].(*ast.Ident); ok {
